@@ -122,7 +122,22 @@ struct Gen {
   std::vector<Op> ops;
   int nameCounter = 0;
   std::set<uint32_t> usedUids;
+  bool indexEdits = false;  // sub-property index_edits: edits that change nothing but a projection / filter index
   explicit Gen(Ctx& ctx) : c(ctx) {}
+
+  static bool hasIndex(const std::string& def) { return def.find("Pr1(") != std::string::npos || def.find("Pr2(") != std::string::npos || def.find("pr1(") != std::string::npos || def.find("pr2(") != std::string::npos; }
+  // `def` with one projection index flipped (Pr1<->Pr2, pr1<->pr2), "" when it has none
+  std::string flipIndex(const std::string& def) {
+    std::vector<size_t> at;
+    for (size_t i = 0; i + 3 < def.size(); ++i) {
+      if ((def[i] == 'P' || def[i] == 'p') && def[i + 1] == 'r' && (def[i + 2] == '1' || def[i + 2] == '2') && def[i + 3] == '(') at.push_back(i + 2);
+    }
+    if (at.empty()) return "";
+    std::string r = def;
+    const size_t k = at[static_cast<size_t>(idx(static_cast<int>(at.size())))];
+    r[k] = r[k] == '1' ? '2' : '1';
+    return r;
+  }
 
   int idx(int n) { return n <= 1 ? 0 : c.ipick(0, n - 1); }
   std::vector<int> liveSlots(const std::function<bool(const Item&)>& pred, int bound = 1 << 30) const {
@@ -166,6 +181,7 @@ struct Gen {
 
   std::pair<std::string, std::string> structDef(int bound) {  // (definition, sort)
     const std::string x = someBase(bound), y = someBase(bound);
+    if (indexEdits && c.coin()) return c.coin() ? std::make_pair("ℬ(" + x + "×" + x + ")", "R:" + x + ":" + x) : std::make_pair(x + "×" + x, "P:" + x + ":" + x);
     switch (c.ipick(0, 6)) {
       case 0: case 1: return {"ℬ(" + x + ")", "S:" + x};
       case 2: return {"ℬ(" + x + "×" + y + ")", "R:" + x + ":" + y};
@@ -195,7 +211,7 @@ struct Gen {
       auto same = aliasesOfSort(sort, bound);
       if (same.empty()) same.push_back(x);
       const std::string a = pickOf(same);
-      switch (c.ipick(0, 9)) {
+      switch (indexEdits && c.coin() ? c.ipick(6, 7) : c.ipick(0, 9)) {
         case 0: return a;
         case 1: return a + "∪" + pickOf(same);
         case 2: return a + "\\" + pickOf(same);
@@ -435,7 +451,8 @@ struct Gen {
     Op op; op.k = RECALC; ops.push_back(op);
   }
   bool tryStep() {  // false: the drawn mutator has nothing to act on (nothing was appended)
-    const int k = c.ipick(0, 99);
+    const bool hasFlippable = indexEdits && !liveSlots([](const Item& it) { return hasIndex(it.def); }).empty();
+    const int k = hasFlippable && c.chance(1, 4) ? 70 : c.ipick(0, 99);
     Op op;
     if (k < 16) {
       op.k = CALC; op.slot = pickTarget([](const Item& it) { return it.kind == TERM || it.kind == AXIOM || it.kind == THEOREM; });
@@ -462,11 +479,13 @@ struct Gen {
       op.k = RESET_DATA; op.slot = pickTarget([](const Item& it) { return isBase(it) || it.kind == STRUCT; });
       if (op.slot >= 0 && isBase(items[static_cast<size_t>(op.slot)])) items[static_cast<size_t>(op.slot)].keys.clear();
     } else if (k < 79) {
-      op.k = SET_EXPR; op.slot = pickTarget([](const Item& it) { return !isBase(it); });
+      op.k = SET_EXPR;
+      op.slot = hasFlippable && c.chance(3, 4) ? pickTarget([](const Item& it) { return hasIndex(it.def); }) : pickTarget([](const Item& it) { return !isBase(it); });
       if (op.slot >= 0) {
         Item& it = items[static_cast<size_t>(op.slot)];
         if (it.kind == STRUCT) { auto ds = structDef(op.slot); op.def = ds.first; it.sort = ds.second; }
         else if (isBase(it)) op.def = it.def;  // base sets keep their (empty) definition: refused as "no change"
+        else if (std::string flipped = indexEdits ? flipIndex(it.def) : std::string(); !flipped.empty() && c.chance(2, 3)) { op.def = flipped; c.label("index-only-edit"); }  // same shape, another index
         else if (c.chance(1, 6)) op.def = brokenDef(it.sort, op.slot);  // the sort is kept: a later edit may repair it
         else {
           if (it.sort.rfind("S:", 0) == 0 && c.chance(1, 8)) it.sort = "S:" + someBase(op.slot);
@@ -764,9 +783,10 @@ struct Runner {
 
 struct Unseed { ~Unseed() { ccl::tools::EntityGenerator::VerifUnseed(); } };
 
-Verdict propHistory(Ctx& c) {
+Verdict runHistory(Ctx& c, bool indexEdits) {
   const uint64_t idSeed = static_cast<uint64_t>(c.pick(0, 1000));
   Gen g(c);
+  g.indexEdits = indexEdits;
   g.generate();
   c.show << "idseed=" << idSeed << "\nsetup:";
   size_t nSetup = 0;
@@ -884,11 +904,16 @@ Verdict propHistory(Ctx& c) {
   return pbt::pass();
 }
 
+Verdict propHistory(Ctx& c) { return runHistory(c, false); }
+Verdict propIndexEdits(Ctx& c) { return runHistory(c, true); }
+
 }  // namespace
 
 int main(int argc, char** argv) {
   std::vector<pbt::Prop> props;
   props.push_back({"history", propHistory, 1300, 6000, false, false,
                    "histories of 4-30 operations on one RSModel, fresh-model recalculation after every operation; non-trivial = an accepted data/definition edit or erase while a transitive dependant holds a calculated value"});
+  props.push_back({"index_edits", propIndexEdits, 500, 3000, false, false,
+                   "the same histories over schemas rich in symmetric relations / pairs, where two thirds of the definition edits change nothing but a projection index (Pr1<->Pr2, pr1<->pr2)"});
   return pbt::main(argc, argv, "C11", props);
 }
